@@ -252,7 +252,7 @@ func stringRunInputs(thorough bool, allBytesUpTo int, fn func(tok []byte, k int)
 	if thorough {
 		ks = append(ks, 2047, 2048, 2049, 4095, 4096, 4097)
 	}
-	elems := []string{`\n`, `\"`, `\\`, `\/`, `é`, `\u0000`, `😀`, `\ud800`, `\udc00x`, "é", "€", "😀", "\xe2\x82", "\xf0\x9f\x98",
+	elems := []string{`\n`, `\"`, `\\`, `\/`, `\\\\`, `\\\\\\`, `\\\"`, `\\\\\"`, `é`, `\u0000`, `😀`, `\ud800`, `\udc00x`, "é", "€", "😀", "\xe2\x82", "\xf0\x9f\x98",
 		"\xed\xa0\x80", "\xc0\xaf", "\xff", "\x80", "\x00", "\x1f", "\x7f", " ", "\t", `"`, `\`, `\u12`, `\x`}
 	for _, k := range ks {
 		run := make([]byte, k)
